@@ -260,10 +260,15 @@ def results_for_property(prop: str, tier: str, only: Optional[str] = None,
     return results, meta
 
 
-def write_ledger():
-    """Record the obligations discharged on the current tree (run once on the pinned tree)."""
+def write_ledger(only=None):
+    """Record the obligations discharged on the current tree (run once on the pinned tree).
+    `only`: substrings of targets — just those functions are re-verified and their entries replaced."""
     contracts = load_all_contracts()
     targets = sorted(t for t, c in contracts.items() if not c.inline and c.tier != 'none')
+    prev = None
+    if only:
+        targets = [t for t in targets if any(o in t for o in only)]
+        prev = load_ledger()
     raw = run_targets(targets, 'quick')
     discharged = []
     others = {}
@@ -279,15 +284,23 @@ def write_ledger():
     os.makedirs(os.path.dirname(LEDGER), exist_ok=True)
     fully = [t for t in targets if raw[t]['clauses'] and not raw[t]['error'] and not raw[t]['unsupported']
              and all(c['verdict'] == 'discharged' for c in raw[t]['clauses'].values())]
-    doc = {'source_hash': common.repo_source_hash(), 'discharged': sorted(discharged),
-           'fully_discharged_functions': sorted(fully), 'not_discharged': others}
+    if prev:
+        redone = set(targets)
+        keep = lambda k: not any(k == t or k.startswith(t + '.') for t in redone)      # noqa: E731
+        discharged += [k for k in prev.get('discharged', []) if keep(k)]
+        fully += [t for t in prev.get('fully_discharged_functions', []) if t not in redone]
+        for k, v in prev.get('not_discharged', {}).items():
+            if keep(k):
+                others.setdefault(k, v)
+    doc = {'source_hash': common.repo_source_hash(), 'discharged': sorted(set(discharged)),
+           'fully_discharged_functions': sorted(set(fully)), 'not_discharged': others}
     json.dump(doc, open(LEDGER, 'w', encoding='utf8'), indent=1)
     return doc
 
 
 if __name__ == '__main__':
     if len(sys.argv) > 1 and sys.argv[1] == 'ledger':
-        d = write_ledger()
+        d = write_ledger(sys.argv[2:] or None)
         print(f'{len(d["discharged"])} obligations discharged; {len(d["not_discharged"])} not')
         for k, v in d['not_discharged'].items():
             print('  ', k, '::', v)
